@@ -210,6 +210,82 @@ pub fn refill_api<const N: usize>() {
     std::mem::forget(world);
 }
 
+/// World::with_capacity hands every archetype ITS OWN requested capacity (generated mapping from
+/// the capacity struct to the archetype fields), in a world whose explicit ids are not monotone
+/// in declaration order; the archetypes then admit that many creations without growing.
+pub fn world_capacity_mapping() {
+    use crate::worlds::wmx::*;
+    let c0 = sym::any_usize();
+    let c1 = sym::any_usize();
+    let c2 = sym::any_usize();
+    sym::assume(c0 <= 2 && c1 <= 2 && c2 <= 2);
+    let mut world = WMX::with_capacity(WMXCapacity { arch_tp: c0, arch_pt: c1, arch_pp: c2 });
+    assert!(world.arch_tp.capacity() >= c0, "World::with_capacity: an archetype got less than the capacity requested for it");
+    assert!(world.arch_pt.capacity() >= c1, "World::with_capacity: an archetype got less than the capacity requested for it");
+    assert!(world.arch_pp.capacity() >= c2, "World::with_capacity: an archetype got less than the capacity requested for it");
+    assert!(world.arch_tp.is_empty() && world.arch_pt.is_empty() && world.arch_pp.is_empty());
+    let mut i = 0;
+    while i < 2 {
+        if i < c2 {
+            assert!(world.create_within_capacity::<ArchPp>((Plain(i as u32),)).is_ok(), "World::with_capacity(n) did not permit n creations in that archetype");
+        }
+        if i < c1 {
+            let r = world.create_within_capacity::<ArchPt>((Plain(i as u32), Tok(i as u8)));
+            assert!(r.is_ok(), "World::with_capacity(n) did not permit n creations in that archetype");
+            std::mem::forget(r);
+        }
+        i += 1;
+    }
+    assert!(world.arch_pp.len() == c2 && world.arch_pt.len() == c1 && world.arch_tp.len() == 0);
+    cover!(c0 == 2 && c1 == 0 && c2 == 1, "distinct capacities");
+    cover!(c0 == 0 && c1 == 2 && c2 == 0, "only the middle archetype sized");
+    std::mem::forget(world);
+}
+
+/// An archetype whose only column is zero-sized, public API only (capacity 3, no growth):
+/// bookkeeping, lookups, iteration and re-creation behave as for any other archetype.
+pub fn all_zst() {
+    use crate::worlds::wzz::*;
+    let mut world = WZZ::with_capacity(WZZCapacity { arch_zz: 3 });
+    let n = if sym::any_bool() { 3 } else { 1 };
+    let mut hs: [Option<Entity<ArchZz>>; 3] = [None; 3];
+    let mut i = 0;
+    while i < 3 {
+        if i < n {
+            hs[i] = Some(world.create::<ArchZz>((Zu,)));
+        }
+        i += 1;
+    }
+    assert!(world.arch_zz.len() == n && world.arch_zz.capacity() >= n && !world.arch_zz.is_empty());
+    let k = sym::any_usize();
+    sym::assume(k < n);
+    assert!(world.destroy(hs[k].unwrap()).is_some(), "destroy of a live entity of a ZST-only archetype failed");
+    assert!(world.arch_zz.len() == n - 1, "len after destroy (ZST-only archetype)");
+    assert!(world.arch_zz.iter().count() == n - 1 && world.arch_zz.iter_mut().count() == n - 1 && world.arch_zz.entities().len() == n - 1, "iteration length differs from len() (ZST-only archetype)");
+    let mut calls = 0;
+    ecs_iter!(world, |_z: &Zu| calls += 1);
+    assert!(calls == n - 1, "ecs_iter! visits another number of entities than len() (ZST-only archetype)");
+    let mut i = 0;
+    while i < 3 {
+        if i < n {
+            let h = hs[i].unwrap();
+            assert!(world.contains(h) == (i != k), "a handle resolves iff its entity is alive (ZST-only archetype)");
+            if i != k {
+                let d = world.arch_zz.resolve(h).unwrap();
+                assert!(d < n - 1 && world.arch_zz.entities()[d] == h, "resolve does not lead to the entity's own dense cell (ZST-only archetype)");
+            }
+        }
+        i += 1;
+    }
+    let e = world.create::<ArchZz>((Zu,));
+    assert!(world.arch_zz.len() == n && e != hs[k].unwrap() && !world.contains(hs[k].unwrap()), "a re-created entity must not revive the destroyed handle (ZST-only archetype)");
+    cover!(n == 3 && k == 0, "full, first entity destroyed");
+    cover!(n == 1, "emptied");
+    std::mem::forget(world);
+}
+
+harness! { fn c12_all_zst_archetype() unwind(6) { all_zst() } }
+harness! { fn c12_world_capacity_mapping() unwind(4) { world_capacity_mapping() } }
 harness! { fn c12_refill_api_2() unwind(5) { refill_api::<2>() } }
 harness! { fn c12_within_foo_3() unwind(5) { bookkeeping_step::<w1::Foo, 3>(0) } }
 harness! { fn c12_within_foo_0() unwind(3) { bookkeeping_step::<w1::Foo, 0>(0) } }
